@@ -7,9 +7,10 @@ Requests
   pg_sched  cfg  clock  setup  progs  events     replay of a thread schedule (event log from the real run)
   pg_track  cfg  clock  setup  mode  taskId  total  n  seen    Progress.track / _TrackThread
 
-cfg    = "period maxLen tps clockOutside"
+cfg    = "period maxLen tps clockOutside refreshReads"
 clock  = readings, space separated (call k returns reading k; the last one repeats)
-ops    = op;op;...   each  "<code> args... <obs>"  with obs ∈ n (nothing) | d (dump) | e (dump + elapsed)
+ops    = op;op;...   each  "<code> args... <obs>"  with obs ∈ n (result only) | d (dump) | e (dump + elapsed)
+         | q (no answer at all for this operation)
 -/
 namespace RichModel.Drv.C12
 open RichModel RichModel.Proto RichModel.Progress
@@ -22,8 +23,23 @@ def encOI : Option Int → String
 
 def decCfg (s : String) : Cfg :=
   match s.splitOn " " with
-  | [p, m, t, c] => { period := decInt p, maxLen := decNat m, tps := decInt t, clockOutside := decBool c }
-  | _ => { period := 0, maxLen := 0, tps := 1, clockOutside := true }
+  | [p, m, t, c, r] =>
+    { period := decInt p, maxLen := decNat m, tps := decInt t, clockOutside := decBool c, refreshReads := decNat r }
+  | _ => { period := 0, maxLen := 0, tps := 1, clockOutside := true, refreshReads := 0 }
+
+def decON (s : String) : Option Nat := if s == "_" then none else s.toNat?
+
+/-- user fields `k:v,k:v` (`-` = none) -/
+def decFields (s : String) : List (Nat × Int) :=
+  if s == "-" then [] else
+  (s.splitOn ",").filterMap (fun kv => match kv.splitOn ":" with
+    | [k, v] => match k.toNat?, v.toInt? with
+      | some k, some v => some (k, v)
+      | _, _ => none
+    | _ => none)
+
+def encFields (l : List (Nat × Int)) : String :=
+  " ".intercalate (l.map (fun kv => toString kv.1 ++ ":" ++ toString kv.2))
 
 def decClock (s : String) : Clock :=
   let arr : Array Int := ((s.splitOn " ").filterMap String.toInt?).toArray
@@ -31,13 +47,18 @@ def decClock (s : String) : Clock :=
 
 def decOp (toks : List String) : Option Op :=
   match toks with
-  | ["A", st, tot, comp, vis] => some (.addTask (decBool st) (decInt tot) (decInt comp) (decBool vis))
+  | ["A", st, tot, comp, vis, d, f] =>
+    some (.addTask ⟨decBool st, decInt tot, decInt comp, decBool vis, decNat d, decFields f⟩)
+  | ["F"] => some .refresh
+  | ["B"] => some .start
+  | ["E"] => some .stop
   | ["S", id] => some (.startTask (decNat id))
   | ["P", id] => some (.stopTask (decNat id))
   | ["D", id] => some (.removeTask (decNat id))
-  | ["U", id, tot, comp, adv, vis, rf] =>
-    some (.update (decNat id) ⟨decOI tot, decOI comp, decOI adv, decOB vis, decBool rf⟩)
-  | ["R", id, st, tot, comp, vis] => some (.reset (decNat id) (decBool st) (decOI tot) (decInt comp) (decOB vis))
+  | ["U", id, tot, comp, adv, vis, rf, d, f] =>
+    some (.update (decNat id) ⟨decOI tot, decOI comp, decOI adv, decOB vis, decBool rf, decON d, decFields f⟩)
+  | ["R", id, st, tot, comp, vis, d, f] =>
+    some (.reset (decNat id) ⟨decBool st, decOI tot, decInt comp, decOB vis, decON d, decFields f⟩)
   | ["V", id, amt] => some (.advance (decNat id) (decInt amt))
   | _ => none
 
@@ -70,7 +91,7 @@ def encTask (cfg : Cfg) (t : Task) : String :=
     encFrac p.1 p.2,
     (match t.speed with | none => "_" | some (n, d) => encFrac n d),
     encOI (t.timeRemaining cfg),
-    encBool t.started ++ encBool t.finished, toString t.remaining]
+    encBool t.started ++ encBool t.finished, toString t.remaining, toString t.description, encFields t.fields]
 
 def encDump (cfg : Cfg) (st : State) : String :=
   "|".intercalate (st.tasks.map (encTask cfg))
@@ -92,7 +113,9 @@ def runHist (cfg : Cfg) (clock : Clock) : List (Op × String) → State → List
     let r := step cfg clock op st
     -- `Progress.finished`: all tasks finished (true for no tasks)
     let head := encErr r.err ++ "@" ++ toString r.st.clk ++ "@" ++ encBool (r.st.tasks.all (fun t => t.finished))
-    if obs == "d" then runHist cfg clock rest r.st ((head ++ "#" ++ encDump cfg r.st) :: acc)
+      ++ encBool r.st.started
+    if obs == "q" then runHist cfg clock rest r.st acc   -- quiet: nothing observed after this operation
+    else if obs == "d" then runHist cfg clock rest r.st ((head ++ "#" ++ encDump cfg r.st) :: acc)
     else if obs == "e" then
       let d := encDumpElapsed cfg clock r.st
       runHist cfg clock rest d.2 ((head ++ "#" ++ d.1) :: acc)
@@ -145,7 +168,7 @@ def handlers : List (String × (List String → String)) := [
     | _ => "bad-args"),
   ("pg_pct", fun a => match a with
     | [tot, comp] =>
-      let t : Task := ⟨0, decInt tot, decInt comp, none, true, none, none, []⟩
+      let t : Task := ⟨0, 0, decInt tot, decInt comp, none, true, [], none, none, []⟩
       encFrac t.percentage.1 t.percentage.2
     | _ => "bad-args"),
   ("pg_track", fun a => match a with
